@@ -42,6 +42,7 @@ std::vector<std::string> g_report;
 std::vector<std::pair<std::string, std::string>> g_viols;
 int g_outFd = -1;
 int g_yieldStreak = 0;
+long g_sleeps = 0, g_sleepsAtProgress = 0;   // voluntary yields (sleep/poll iterations) in total / when the harness last reported progress
 long g_blocked = 0;
 int g_stepLimit = 20000;
 bool g_verbose = false;
@@ -137,6 +138,11 @@ void pick(bool selfContinues)
     if (a.t == me && selfContinues && me->voluntary && others.empty()) {
         if (++g_yieldStreak > 40) finishExecution("livelock");
     } else if (a.t != me) g_yieldStreak = 0; // only another thread running can change what the spinning thread waits for
+    // ... or a polling loop keeps other threads busy without anything observable ever happening (the harness reports
+    // deliveries and completed operations through vs::progress())
+    if (selfContinues && me && me->voluntary) {
+        if (++g_sleeps - g_sleepsAtProgress > 300) finishExecution("livelock");
+    }
     a.t->timedOut = a.timeout;
     if (g_verbose) fprintf(stderr, "  step %zu: T%d at %s -> T%d (%s)%s [alts %d]\n", g_step - 1, me ? me->id : -1, me ? me->op : "-", a.t->id, a.t->op, a.timeout ? " TIMEOUT" : "", (int)order.size());
     if (a.t != me) {
@@ -203,6 +209,7 @@ bool point(const char *op, std::function<bool()> enabled, bool voluntary, bool c
 }
 
 void observe(const std::string &line) { g_report.push_back(line); }
+void progress() { g_sleepsAtProgress = g_sleeps; }
 void violation(const std::string &key, const std::string &what) { g_viols.push_back({ key, what }); }
 
 // ------------------------------------------------------------------------------------------------ parent side
@@ -230,7 +237,7 @@ Exec runOne(const std::function<void()> &body, const std::vector<int> &prefix, c
     if (p == 0) {
         close(fds[0]);
         g_outFd = fds[1];
-        g_prefix = prefix; g_step = 0; g_trace.clear(); g_report.clear(); g_viols.clear();
+        g_prefix = prefix; g_step = 0; g_trace.clear(); g_report.clear(); g_viols.clear(); g_sleeps = g_sleepsAtProgress = 0;
         g_stepLimit = opt.stepLimit; g_verbose = opt.verbose;
         Thread *t0 = new Thread; t0->id = 0; t0->name = "main"; sem_init(&t0->sem, 0, 0);
         T.clear(); T.push_back(t0); me = t0;
